@@ -10,6 +10,7 @@
     consume_until_empty(): events = _events.load(acquire);
                            while (true) { poped = _queue.try_pop_n<false,false>(consume_function, capacity());
                              if (poped != 0) events = _events.load(acquire);
+                             else if (_queue.size() != 0) S::yield();      // repair 0c66556, `Cfg.sizeCheck`
                              else if (_events.compare_exchange_strong(events, 0, acq_rel)) break; }
     join():                while (_events.load(acquire)) usleep(1000);
 
@@ -48,6 +49,10 @@ open Babylon.Core Babylon.Gen.ExecQ
 
 structure Cfg where
   cap : Nat                       -- capacity of the bounded queue
+  /-- `consume_until_empty` looks at `_queue.size()` after an empty poll and polls again while some index
+  is handed out but not popped (`Gen.ExecQ.exitChecksSize`; the shape before repair 0c66556 is `false`,
+  kept so that the necessity of the branch is a theorem, `Properties.C16.eq_prefix_*`) -/
+  sizeCheck : Bool := true
 
 /-- one submission: the `seq`-th `execute` of thread `owner`, carrying payload `val` -/
 structure Item where
@@ -77,6 +82,7 @@ inductive Pc
   | c0 (k : Kont)                             -- `events = _events.load(acquire)`
   | cPop (k : Kont) (ev : Nat) (got : Bool)   -- `try_pop_n`; `got`: this call already delivered a batch    (Q3)
   | cCb (k : Kont) (ev : Nat) (batch : List Item) (started : Bool)   -- inside the consume function
+  | cSize (k : Kont) (ev : Nat)               -- empty poll: `_queue.size()` = `_next_push_index.load(relaxed)` - head
   | cExit (k : Kont) (ev : Nat)               -- `_events.compare_exchange_strong(events, 0, acq_rel)`
   | j0 (snap : List Nat)                      -- join: `_events.load(acquire)`; ghost: indices whose execute had returned at the call
   deriving DecidableEq, Repr, Inhabited
@@ -190,7 +196,8 @@ def stepThread (c : Cfg) (s : State) (t : Nat) (inp : Inp) : Option (State × La
     match inp with
     | .pop 0 =>
       if got = false ∧ s.pub s.head = false then
-        some ({ s with pc := upd s.pc t (.cExit k ev) }, .ld "slot" (slotOff c s.head) .rlx (pushVersion c s.head))
+        some ({ s with pc := upd s.pc t (if c.sizeCheck then .cSize k ev else .cExit k ev) },
+              .ld "slot" (slotOff c s.head) .rlx (pushVersion c s.head))
       else none
     | .pop (n + 1) =>
       if prefixPub s (n + 1) then
@@ -212,6 +219,10 @@ def stepThread (c : Cfg) (s : State) (t : Nat) (inp : Inp) : Option (State × La
       | [] => some ({ s with pc := upd s.pc t (.cPop k ev true) }, .ev ["cb_end"])
     else
       some ({ s with pc := upd s.pc t (.cCb k ev batch true) }, .ev ["cb_begin", toString batch.length])
+  | .cSize k ev =>
+    -- the pop index is written by this thread only, so the distance is exact at the push-index load
+    some ({ s with pc := upd s.pc t (if s.tail = s.head then .cExit k ev else .cPop k ev false) },
+          .ld "pushidx" 0 .rlx s.tail)
   | .cExit k ev =>
     if s.events = ev then
       some ({ s with events := exitDesired, debt := false, pc := upd s.pc t .idle, result := upd s.result t 0,
@@ -262,6 +273,8 @@ def Skel.consume_until_empty : List Site := [
   .load "_events" .acq,
   .call "try_pop_n",
   .load "_events" .acq,
+  .call "size",
+  .call "yield",
   .cas "_events" true .acqrel .acq]
 def Skel.join : List Site := [.load "_events" .acq, .call "usleep"]
 
